@@ -29,6 +29,10 @@ fn free_port() -> std::io::Result<u16> {
 impl Server {
   /// Starts `searchlite-http` on the index directory; `extra` are further command-line arguments.
   pub fn start(index: &Path, extra: &[&str]) -> anyhow::Result<Server> {
+    // one start-up at a time per process: between picking a free port and the service binding it no
+    // other worker may pick the same one (its health probe would then reach the wrong server)
+    static STARTUP: std::sync::Mutex<()> = std::sync::Mutex::new(());
+    let _one_at_a_time = STARTUP.lock().unwrap_or_else(|e| e.into_inner());
     for _attempt in 0..8 {
       let port = free_port()?;
       let mut argv: Vec<String> = vec!["searchlite-http".into(), "--index".into(), index.display().to_string(), "--bind".into(), format!("127.0.0.1:{port}"), "--shutdown-grace-secs".into(), "0".into()];
